@@ -10,6 +10,7 @@ EXPLANATION = (
     "isolation == Serializable, on the strict overlap test commit_epoch(other) > start_epoch(ours) and on membership of "
     "a read entity in the other write set; (R3) it is also control-dependent on the transaction having written "
     "something, so read-only transactions are never refused. (R8) commit only reads the read/write sets; (R9) one exclusive guard on the transaction table spans validation and publication. "
+    "R7 also: every Ok return of record_read has registered the entity (or found it registered). "
     "Acyclicity over all histories is not decided.")
 ASSUMPTIONS = ["operands identified by provenance (TxInfo.isolation_level/start_epoch/read_set/write_set, TransactionManager.committed_epochs)"]
 
